@@ -110,7 +110,7 @@ Proof. exact sync_disable_may_drop. Qed.
     what the device emitted, exactly once and in that order. *)
 Definition C05_bridge_relays_exactly_once_per_direction_statement : Prop :=
   forall li hi ei spi lo ho eo spo (sched : list baction),
-    let s := brun (mkBC false false) sched (binit2 (sinit li None hi ei spi) (sinit lo None ho eo spo)) in
+    let s := brun (mkBC false false false) sched (binit2 (sinit li None hi ei spi) (sinit lo None ho eo spo)) in
     bquiet s = true ->
     d_peer (b_in s) = hi ++ ei ++ msgs_of (concat spi)
     /\ d_peer (b_out s) = ho ++ eo ++ msgs_of (concat spo).
@@ -122,20 +122,21 @@ Proof. exact bridge_statement_refuted. Qed.
 (** The two ways it fails: traffic reaching the new wrapper overtakes what was held; an event
     still in the old connector's queue is handled by the old connector, never relayed. *)
 Theorem C05_bridge_witnesses :
-  (let s := brun (mkBC false false) br_sched_order (binit [p1] [] [[Some p2]]) in
+  (let s := brun (mkBC false false false) br_sched_order (binit [p1] [] [[Some p2]]) in
    bquiet s = true /\ d_peer (b_in s) = [p2; p1])
   /\
-  (let s := brun (mkBC false false) br_sched_loss (binit [] [p1] []) in
+  (let s := brun (mkBC false false false) br_sched_loss (binit [] [p1] []) in
    bquiet s = true /\ d_peer (b_in s) = [] /\ d_lost (b_in s) = [p1]).
 Proof. exact bridge_refuted. Qed.
 
 (** What holds under EVERY schedule, quiet link or not: the reader threads survive the
-    creation of the bridge (repaired Connector.__init__) and every message of either side is,
+    creation of the bridge (repaired Connector.__init__; repaired Device.put_message: whatever
+    stale filters [fi], [fo] the devices carry) and every message of either side is,
     with its multiplicity, in exactly one place -- relayed, handled by the old connector
     instead, held, or still on its way: nothing is relayed twice, nothing vanishes. *)
 Theorem C05_bridge_relays_partial :
-  forall q li hi ei spi lo ho eo spo (sched : list baction) (x : msg) (d : dir),
-    let s := brun (mkBC false q) sched (binit2 (sinit li None hi ei spi) (sinit lo None ho eo spo)) in
+  forall q li fi hi ei spi lo fo ho eo spo (sched : list baction) (x : msg) (d : dir),
+    let s := brun (mkBC false q false) sched (binit2 (sinit li fi hi ei spi) (sinit lo fo ho eo spo)) in
     d_rpc (bside d s) <> BR_Dead
     /\ cnt x (ball d s) = cnt x (match d with DIn => hi ++ ei ++ msgs_of (concat spi)
                                           | DOut => ho ++ eo ++ msgs_of (concat spo) end).
@@ -148,7 +149,7 @@ Proof. exact bridge_conservation. Qed.
 Theorem C05_bridge_quiet_link :
   forall li fi hi spi lo fo ho spo (sched : list baction),
     (li = false -> hi = []) -> (lo = false -> ho = []) ->
-    let s := brun (mkBC false true) sched (binit2 (sinit li fi hi [] spi) (sinit lo fo ho [] spo)) in
+    let s := brun (mkBC false true false) sched (binit2 (sinit li fi hi [] spi) (sinit lo fo ho [] spo)) in
     bdone s = true ->
     QB hi spi (b_in s) /\ QB ho spo (b_out s).
 Proof. exact bridge_quiet_link. Qed.
@@ -156,30 +157,31 @@ Proof. exact bridge_quiet_link. Qed.
 Theorem C05_bridge_quiet_link_quiescent :
   forall li fi hi spi lo fo ho spo (sched : list baction),
     (li = false -> hi = []) -> (lo = false -> ho = []) ->
-    let s := brun (mkBC false true) sched (binit2 (sinit li fi hi [] spi) (sinit lo fo ho [] spo)) in
+    let s := brun (mkBC false true false) sched (binit2 (sinit li fi hi [] spi) (sinit lo fo ho [] spo)) in
     bquiet s = true ->
     d_peer (b_in s) = hi ++ msgs_of (concat spi) /\ d_peer (b_out s) = ho ++ msgs_of (concat spo).
 Proof. exact bridge_quiet_link_quiescent. Qed.
 
 (** [fi], [fo]: message filters left on the devices by earlier send_command / send_message calls
     are reset by Bridge.__init__ (B1 / B2), so on a quiet link EVERY kind of message emitted
-    after the creation is relayed, including those a stale filter would have kept.  Under
-    traffic a stale filter exposes the two unsynchronised filter loads of Device.put_message
-    (KNOWN-FINDING filter-reset-races-put-message): *)
-Theorem C05_bridge_stale_filter_reader_dies :
+    after the creation is relayed, including those a stale filter would have kept; and under
+    traffic no schedule of filter resets and put_message kills a reader thread
+    ([C05_bridge_relays_partial], stated for arbitrary stale filters; C04_reader_never_dies).
+    Device.put_message as found (two loads of the filter) refutes that: *)
+Theorem C05_bridge_legacy_filter_refuted :
   exists sched,
-    d_rpc (b_in (brun (mkBC false false) sched
+    d_rpc (b_in (brun (mkBC false false true) sched
                    (binit2 (sinit true (Some 3) [] [] [[Some p1]]) (sinit false None [] [] [])))) = BR_Dead.
-Proof. exact bridge_stale_filter_reader_dies. Qed.
+Proof. exact bridge_legacy_filter_refuted. Qed.
 
 (** Connector.__init__ as found: the device was given the half-built connector; the reader
     thread dies on it. *)
 Theorem C05_bridge_legacy_ctor_refuted :
-  exists sp sched, d_rpc (b_in (brun (mkBC true false) sched (binit [] [] sp))) = BR_Dead.
+  exists sp sched, d_rpc (b_in (brun (mkBC true false false) sched (binit [] [] sp))) = BR_Dead.
 Proof. exact bridge_legacy_ctor_refuted. Qed.
 
 Example C05_nonvacuous_quiet :
-  let s := brun (mkBC false true) nvq_sched
+  let s := brun (mkBC false true false) nvq_sched
              (binit2 (sinit true None nvq_hi [] [[Some (mkMsg 7 4 false)]]) (sinit true (Some 3) nvq_ho [] [[Some (mkMsg 0 13 true); Some (mkMsg 3 14 false)]])) in
   bquiet s = true
   /\ d_peer (b_in s) = nvq_hi ++ [mkMsg 7 4 false] /\ d_peer (b_out s) = nvq_ho ++ [mkMsg 0 13 true; mkMsg 3 14 false].
